@@ -259,16 +259,27 @@ func c10Gen(tier string, rng *rand.Rand, emit func(string)) map[string]interface
 		subs, v := 0, 0
 		withMap := rng.Intn(3) == 0
 		hq := 0
-		if withMap {
-			toks = append(toks, "m:"+fns[rng.Intn(len(fns))])
-			subs = 1
-			hq = rng.Intn(2)
+		hop := "h" // unbuffered Handler.New(); hb = buffered channel
+		if rng.Intn(3) == 0 {
+			hop = "hb"
 		}
 		hAt := rng.Intn(4)
+		if withMap {
+			if rng.Intn(2) == 0 {
+				// SubscribeOn(h) on the origin BEFORE Map: the forwarder runs on h, the derived publisher has no handler
+				toks = append(toks, hop)
+				hAt = -1
+			}
+			toks = append(toks, "m:"+fns[rng.Intn(len(fns))])
+			subs = 1
+			if hAt >= 0 {
+				hq = rng.Intn(2)
+			}
+		}
 		nsub := map[int]int{0: subs, 1: 0}
 		for j, nops := 0, 5+rng.Intn(14); j < nops; j++ {
 			if j == hAt {
-				toks = append(toks, fmt.Sprintf("h@%d", hq))
+				toks = append(toks, fmt.Sprintf("%s@%d", hop, hq))
 			}
 			q := 0
 			if withMap {
@@ -291,12 +302,44 @@ func c10Gen(tier string, rng *rand.Rand, emit func(string)) map[string]interface
 				toks = append(toks, fmt.Sprintf("c@%d", q))
 			}
 		}
-		if len(toks) <= hAt {
-			toks = append(toks, fmt.Sprintf("h@%d", hq))
+		if hAt >= 0 && len(toks) <= hAt {
+			toks = append(toks, fmt.Sprintf("%s@%d", hop, hq))
 		}
 		v++
 		toks = append(toks, fmt.Sprintf("p:%d", v), "c")
 		out("handler", "seq: "+strings.Join(toks, " ; "))
+	}
+
+	// SubscribeOn(h) BEFORE Map(fn): the forwarding subscription runs on h and publishes on the derived publisher, which
+	// has no handler of its own (its deliveries happen right there, exactly once, fn(v) for every v); unbuffered and
+	// buffered handlers, subscribers on the derived publisher and after the forwarder on the origin, chains of Maps
+	for _, hop := range []string{"h", "hb"} {
+		for _, f := range []string{"a", "z"} {
+			for _, pre := range [][]string{{}, {"s"}, {"s:u0", "z"}} {
+				for _, post := range [][]string{{}, {"s"}, {"s:n", "s"}} {
+					for _, der := range [][]string{{"s@1"}, {"s@1", "s@1:u0", "z@1"}, {"s@1:n", "s@1"}} {
+						toks := append([]string{}, pre...)
+						toks = append(toks, hop, "m:"+f)
+						toks = append(toks, post...)
+						toks = append(toks, der...)
+						toks = append(toks, "p:1", "p:0", "c@1", "s@1", "p:2", "c")
+						if f == "z" && (len(pre) != 1 || len(post) != 1) {
+							continue // the constant-0 function only on a diagonal of the layouts
+						}
+						out("handlermap", "seq: "+strings.Join(toks, " ; "))
+					}
+				}
+			}
+		}
+		for _, lay := range [][]string{
+			{hop, "m:a", "m@1:d", "s@2", "p:1", "p:2"},
+			{hop, "m:a", "s@1", "m@1:d", "s@2", "s", "p:1", "p:2", "c@2"},
+			{"s", hop, "m:a", "m:d", "s@1", "s@2", "s", "p:3", "p:4"},
+			{hop, "m:a", "s@1", hop + "@1", "s@1", "p:1", "p:2"},
+			{hop, "m:i", "s@1:p", "s@1", "p:1"},
+		} {
+			out("handlermap", "seq: "+strings.Join(lay, " ; "))
+		}
 	}
 
 	// SubscribeOn called again between publishes (a new handler each time): every later delivery runs on the handler
